@@ -1,37 +1,55 @@
-"""C13 check configuration (sequence-like collections: vector, deque, append-only list)."""
-PROP = {
-        "props_files": ["Props/C13_Vec.v", "Props/C13_VecDeque.v", "Props/C13_List.v"],
-        "jobs": [
-            {"component": "robs_vec", "comp_num": 131, "quick": 1500, "thorough": 60000},
-            {"component": "robs_deque", "comp_num": 132, "quick": 1500, "thorough": 60000},
-            {"component": "robs_list", "comp_num": 133, "quick": 1500, "thorough": 60000},
-        ],
-        "design_ref": "DESIGN.md section 5, C13; Appendix B.4",
-        "level_text": "Theorems (Coq, closed under the global context) on Gallina transcriptions of ObservableVec / ObservableVecDeque / "
-                      "ObservableList (every public mutator incl. get_mut/iter_mut reference writes, retain, resize, swap_remove*, "
-                      "extend, no-op and panic cases, with exactly the events each sends), of VecSubscription::recv etc. (snapshot and "
-                      "incremental initial values, synthesized Done), of Mirrored*Inner::handle_event and of the mirror task loop: for "
-                      "every initial content, every non-panicking op list, every subscription point and both modes, the mirror task "
-                      "and a hand consumer fed with the subscription stream end with exactly the collection's contents, complete, "
-                      "and done iff done() was called, provided max_size is not exceeded; by induction over the op list through a "
-                      "one-step lemma. The op/event constructors are tied to the mutator and variant lists regenerated from the Rust "
-                      "source on every run; behaviour is tied by a differential run of the real collections, a real local mirror() and "
-                      "a hand-drained subscription against the extracted model, plus the oracle mirror == collection.",
-        "level_note": "Vector/deque: the theorem excludes the class `incremental subscription taken after done() on a non-empty collection` "
-                      "(finding F11: the pinned mirror task starts with done=true and stops after the first initial Push); "
-                      "C13_*_known_class_refuted proves the divergence on the model and the class is replayed on the real code under its own "
-                      "signature. Elements are N with Leibniz equality; usize treated as unbounded; mirrors are local (no connection), "
-                      "remote transport of the same event stream is the subject of C01/C04. Lagging subscribers and max_size overflow belong to C14 "
-                      "(max_size overflow is nevertheless compared between model and code). Hash map/set are checked by the sibling C13 components.",
-        "trivial_sig": r":malformed$",
-        "rule": "cases from one PRNG (VERIF_SEED): initial contents of 0-6 elements, 5-60 mutator calls drawn over the whole API with "
-                "indices at 0/len-1/len/len+1, no-op variants, rare panicking calls (caught, state unchanged), done() at a random point "
-                "followed by repeated done()/panicking calls, one subscription point (start, middle, end, after done), both modes, "
-                "max_size mostly large and sometimes 0-8; every case runs the real collection, a real mirror() and two hand-held "
-                "subscriptions; the signature names mode, subscription point, mirror outcome and one of the mutator branches the case "
-                "exercised (chosen by input hash); distinct = distinct input",
-        "assumptions": [
-            "tokio paused-clock quiescence barrier: sleep(1ns)/timeout(1ns) complete only when every other task is idle",
-            "element type u64 with codec::Default stands for every T: Clone + RemoteSend",
-        ],
-    }
+"""C13 check configuration (merged: vector, deque, list, hash map, hash set)."""
+PROP = {'assumptions': ['tokio paused-clock quiescence barrier: sleep(1ns)/timeout(1ns) complete only when every other task is idle',
+                 'element type u64 with codec::Default stands for every T: Clone + RemoteSend',
+                 'HashMap::iter and HashMap::iter_mut visit an unmodified table in the same order (used by the harness to know which key a '
+                 'RefMut from iter_mut belongs to; RefMut does not expose its key)',
+                 'tokio paused-clock quiescence barrier: sleep(1ns) returns only when the mirror task and the incremental initial-value '
+                 'senders are idle'],
+ 'design_ref': 'DESIGN.md section 5, C13; Appendix B.4; section 6 F4, F11',
+ 'jobs': [{'comp_num': 131, 'component': 'robs_vec', 'quick': 1500, 'thorough': 60000},
+          {'comp_num': 132, 'component': 'robs_deque', 'quick': 1500, 'thorough': 60000},
+          {'comp_num': 133, 'component': 'robs_list', 'quick': 1500, 'thorough': 60000},
+          {'comp_num': 134, 'component': 'robs_map', 'quick': 1500, 'thorough': 60000},
+          {'comp_num': 135, 'component': 'robs_set', 'quick': 1500, 'thorough': 60000}],
+ 'level_note': 'Vector/deque: the theorem excludes the class `incremental subscription taken after done() on a non-empty collection` '
+               '(finding F11: the pinned mirror task starts with done=true and stops after the first initial Push); '
+               'C13_*_known_class_refuted proves the divergence on the model and the class is replayed on the real code under its own '
+               'signature. Elements are N with Leibniz equality; usize treated as unbounded; mirrors are local (no connection), remote '
+               'transport of the same event stream is the subject of C01/C04. Lagging subscribers and max_size overflow belong to C14 '
+               '(max_size overflow is nevertheless compared between model and code). Hash map/set: Trusted: Coq kernel (+vm_compute), '
+               'translator, extraction and mrun glue (cross-checked in-kernel on a sample), harness. Keys/values are u64 with structural '
+               'equality; hash iteration order is abstracted (events of one retain and the incremental initial value are compared after '
+               'sorting by key, they commute); the mirror runs locally, not across a connection (the event transport is C04/C16); lagging '
+               'subscribers, drop before done and max_size overflow belong to C14.',
+ 'level_text': 'Sequences: Theorems (Coq, closed under the global context) on Gallina transcriptions of ObservableVec / ObservableVecDeque '
+               '/ ObservableList (every public mutator incl. get_mut/iter_mut reference writes, retain, resize, swap_remove*, extend, '
+               'no-op and panic cases, with exactly the events each sends), of VecSubscription::recv etc. (snapshot and incremental '
+               'initial values, synthesized Done), of Mirrored*Inner::handle_event and of the mirror task loop: for every initial content, '
+               'every non-panicking op list, every subscription point and both modes, the mirror task and a hand consumer fed with the '
+               "subscription stream end with exactly the collection's contents, complete, and done iff done() was called, provided "
+               'max_size is not exceeded; by induction over the op list through a one-step lemma. The op/event constructors are tied to '
+               'the mutator and variant lists regenerated from the Rust source on every run; behaviour is tied by a differential run of '
+               'the real collections, a real local mirror() and a hand-drained subscription against the extracted model, plus the oracle '
+               'mirror == collection. Hash map/set: Theorems (Coq, closed under the global context) on Gallina transcriptions of '
+               'ObservableHashMap / ObservableHashSet (every public mutator incl. entry API, RefMut/IterMut use, retain closures with &mut '
+               'V, calls after done()), of HashMap/HashSetSubscription::{take_initial,recv} in both modes and of the mirror task: for '
+               'every initial content, operation list, subscription point, mode and max_size that is not exceeded, the mirror ends with '
+               'exactly the observed contents, done iff done() was called, complete, no error; the hand-consumed event stream gives the '
+               'same contents. Proved for all inputs outside two decidable classes that the faithful model refutes with vm_compute '
+               'witnesses (F4: retain closure changes a kept value; F11: incremental subscription of a non-empty collection made after '
+               'done()). Operation and event constructors are tied to the mutator/variant lists regenerated from the Rust source; the '
+               'transcription is tied to the code by a differential run of the real collections, a real local mirror() and a hand-held '
+               'subscription.',
+ 'props_files': ['Props/C13_Vec.v', 'Props/C13_VecDeque.v', 'Props/C13_List.v', 'Props/C13_HashMap.v', 'Props/C13_HashSet.v'],
+ 'rule': 'Sequences: cases from one PRNG (VERIF_SEED): initial contents of 0-6 elements, 5-60 mutator calls drawn over the whole API with '
+         'indices at 0/len-1/len/len+1, no-op variants, rare panicking calls (caught, state unchanged), done() at a random point followed '
+         'by repeated done()/panicking calls, one subscription point (start, middle, end, after done), both modes, max_size mostly large '
+         'and sometimes 0-8; every case runs the real collection, a real mirror() and two hand-held subscriptions; the signature names '
+         'mode, subscription point, mirror outcome and one of the mutator branches the case exercised (chosen by input hash); distinct = '
+         'distinct input Hash map/set: cases from one PRNG (VERIF_SEED): initial content over keys 0..8, 5-60 operations over the whole '
+         'mutating API (hits and misses, entry API on occupied and vacant entries with and_modify chains, RefMut read/touch/write, '
+         'iter_mut drop orders, retain tables that also write into entries they remove, clear on empty, done/done twice/operations after '
+         'done), one subscription point anywhere incl. after done, both modes, max_size mostly large and sometimes 1..8; separate rarer '
+         'streams for the known classes (signature prefixes F4:, F11:); signature = mode:subscription position:rarest branch taken after '
+         'the subscription; distinct = distinct input',
+ 'trivial_sig': '(:malformed$|^malformed$)'}
